@@ -28,6 +28,7 @@ CONSTANTS
   TrampFlushed = TRUE
   Regen = TRUE
   SavedFrom = "install"
+  VerifierStep = "first"
   RestoreMayFail = FALSE
   LockByHand = FALSE
   ForeignReuse = FALSE
@@ -38,5 +39,5 @@ CONSTANTS
 CONSTRAINT Bound
 CONSTRAINT RegenOnce
 INVARIANT TypeOK Restored LatestWins NoWildAtUser OnlyNamed Mutex HolderIsLock NoAbort Reusable IdleClean NoLeak FreeOnce FlushedAtUser NoFault NoSelfDeadlock WX
-PROPERTY FreshCount RefusedUntouched
+PROPERTY FreshCount RefusedUntouched ResetBeforeLive
 CHECK_DEADLOCK FALSE
